@@ -610,6 +610,167 @@ example : (let g := diag wPtrShadow (ptrOfM wPtrShadow) 24
      g.amb = false ∧ g.fieldhide = false ∧ g.seenstr = false ∧ g.protoname = false ∧ g.pkgname = false ∧ g.namedptr = false) ∧
     methodSet wPtrShadow 24 = specMethodSet wPtrShadow (ptrOfM wPtrShadow) 24 := by decide
 
+/-! ### `methodset_correct` for types without embedding (depth 0): the receiver rule -/
+
+theorem addBase_append (base ms : List Method) (hp : ∀ m ∈ ms, protoProps.contains m.name = false)
+    (hn : ((base ++ ms).map (·.name)).Nodup) : addBase base ms = base ++ ms := by
+  induction ms generalizing base with
+  | nil => simp [addBase]
+  | cons m r ih =>
+    have hm : protoProps.contains m.name = false := hp m (by simp)
+    have hb : base.any (fun x => x.name == m.name) = false := by
+      rw [List.any_eq_false]
+      intro x hx hxe
+      simp only [List.map_append, List.map_cons] at hn
+      rw [List.nodup_append] at hn
+      have := hn.2.2 x.name (List.mem_map_of_mem hx) m.name (by simp)
+      exact this (by simpa using hxe)
+    have step : addBase base (m :: r) = addBase (base ++ [m]) r := by
+      simp only [addBase, List.foldl_cons, hm, hb]
+      simp
+    rw [step, ih (base ++ [m]) (fun x hx => hp x (List.mem_cons_of_mem _ hx)) (by simpa using hn)]
+    simp
+
+theorem has_append (t : Tbl) (k k' : SelKey) (v : Option Method) : Tbl.has (t ++ [(k, v)]) k' = (t.has k' || k == k') := by
+  simp [Tbl.has, List.any_append]
+
+theorem put_new (t : Tbl) (k : SelKey) (v : Option Method) (h : t.has k = false) : t.put k v = t ++ [(k, v)] := by
+  simp [Tbl.put, h]
+
+def mkey (m : Method) : SelKey := (m.name, m.pkg)
+
+/-- folding `addOne` over methods with fresh, pairwise distinct keys appends one entry per method -/
+theorem foldl_addOne (ptrRecv : Bool) : ∀ (ms : List Method) (t : Tbl),
+    ((t.map (·.1) ++ ms.map mkey)).Nodup →
+    ms.foldl (fun t m => addOne t m ptrRecv false false) t = t ++ ms.map (fun m => (mkey m, if ptrRecv then none else some m))
+  | [], t, _ => by simp
+  | m :: r, t, hn => by
+    have hh : t.has (mkey m) = false := by
+      simp only [Tbl.has, List.any_eq_false]
+      intro e he hek
+      rw [List.nodup_append] at hn
+      exact hn.2.2 e.1 (List.mem_map_of_mem he) (mkey m) (by simp) (by simpa using hek)
+    have step : addOne t m ptrRecv false false = t ++ [(mkey m, if ptrRecv then none else some m)] := by
+      have hh' : t.has (m.name, m.pkg) = false := hh
+      unfold addOne
+      cases ptrRecv
+      · simp [hh', put_new _ _ _ hh', mkey]
+      · simp [put_new _ _ _ hh', mkey]
+    simp only [List.foldl_cons, step]
+    rw [foldl_addOne ptrRecv r _ (by simpa [List.map_append] using hn)]
+    simp
+
+theorem mergeLevel_nil : ∀ (mset base : Tbl), ((base.map (·.1) ++ mset.map (·.1))).Nodup →
+    mset.foldl (fun b e => if b.has e.1 then b else b ++ [(e.1, if ([] : List SelKey).contains e.1 then none else e.2)]) base = base ++ mset
+  | [], base, _ => by simp
+  | e :: r, base, hn => by
+    have hh : base.has e.1 = false := by
+      simp only [Tbl.has, List.any_eq_false]
+      intro x hx hxe
+      rw [List.nodup_append] at hn
+      exact hn.2.2 x.1 (List.mem_map_of_mem hx) e.1 (by simp) (by simpa using hxe)
+    simp only [List.foldl_cons, hh]
+    have := mergeLevel_nil r (base ++ [(e.1, e.2)]) (by simpa [List.map_append] using hn)
+    simpa using this
+
+/-- a defined non-struct, non-interface, non-pointer type (`type N int`, `type S []T`, …) -/
+def FlatNamed (s : St) (t : Nat) : Prop :=
+  (s.get t).named = true ∧ (s.get t).kind ≠ kStruct ∧ (s.get t).kind ≠ kInterface ∧ (s.get t).kind ≠ kPtr
+
+/-- its declared methods (both receiver kinds) have pairwise distinct names (Go rejects duplicates) that are not
+    `Object.prototype` properties -/
+def DeclClean (s : St) (t : Nat) : Prop :=
+  (((s.get t).methods ++ ptrMethods s t).map (·.name)).Nodup ∧ ∀ m ∈ (s.get t).methods, protoProps.contains m.name = false
+
+theorem msLoop_nil (s : St) (f : Nat) (seen : List Str) (base : List Method) (al : List Nat) :
+    msLoop s f [] seen base al = (base, al) := by cases f <;> rfl
+
+theorem sLoop_nil (s : St) (p : Nat → Option Nat) (f : Nat) (seen : List Nat) (base : Tbl) :
+    sLoop s p f [] seen base = base := by cases f <;> rfl
+
+theorem methodSet_flat (s : St) (t : Nat) (hf : FlatNamed s t) (hc : DeclClean s t) :
+    methodSet s t = (s.get t).methods := by
+  obtain ⟨hn, hk1, hk2, hk3⟩ := hf
+  unfold methodSet methodSetAux
+  simp only [hk3, false_and, if_false]
+  simp only [msLoop, List.foldl_cons, List.foldl_nil, decide_false]
+  have hv : msVisit s { seen := [], mset := [], next := [], allocs := [] } ⟨t, false⟩ =
+      { seen := [(s.get t).str], mset := (s.get t).methods, next := [], allocs := [] } := by
+    simp [msVisit, hn, hk1, hk2]
+  rw [hv]
+  simp only [msLoop_nil]
+  have := addBase_append [] (s.get t).methods hc.2 (by
+    have := hc.1
+    simp only [List.map_append] at this
+    simpa using (List.nodup_append.mp this).1)
+  simpa using this
+
+theorem nodup_keys : ∀ (ms : List Method), (ms.map (·.name)).Nodup → (ms.map mkey).Nodup
+  | [], _ => by simp
+  | m :: r, h => by
+    simp only [List.map_cons, List.nodup_cons] at h ⊢
+    refine ⟨?_, nodup_keys r h.2⟩
+    intro hm
+    apply h.1
+    simp only [List.mem_map] at hm ⊢
+    obtain ⟨x, hx, hxe⟩ := hm
+    exact ⟨x, hx, by have := congrArg Prod.fst hxe; simpa [mkey] using this⟩
+
+theorem declared_eq (s : St) (t : Nat) (hk : (s.get t).kind ≠ kInterface) :
+    declaredMethods s (ptrOfM s) t = (s.get t).methods.map (fun m => (m, false)) ++ (ptrMethods s t).map (fun m => (m, true)) := by
+  unfold declaredMethods ptrMethods ptrOfM
+  simp only [hk, if_false]
+  cases s.cache.lookup (cPtr, dec t) <;> simp
+
+theorem filterMap_vals (vals ptrs : List Method) :
+    (vals.map (fun m => (mkey m, some m)) ++ ptrs.map (fun m => (mkey m, (none : Option Method)))).filterMap (·.2) = vals := by
+  simp [List.filterMap_append, List.filterMap_map]
+  induction vals <;> simp_all
+
+theorem specMethodSet_flat (s : St) (t : Nat) (hf : FlatNamed s t) (hc : DeclClean s t) :
+    specMethodSet s (ptrOfM s) t = (s.get t).methods := by
+  obtain ⟨hn, hk1, hk2, hk3⟩ := hf
+  have hkeys := nodup_keys _ hc.1
+  simp only [List.map_append] at hkeys
+  unfold specMethodSet specTable
+  simp only [hk3, false_and, if_false]
+  simp only [sLoop, List.foldl_cons, List.foldl_nil, decide_false]
+  have hm : (declaredMethods s (ptrOfM s) t).foldl (fun tb mp => addOne tb mp.1 mp.2 false false) [] =
+      (s.get t).methods.map (fun m => (mkey m, some m)) ++ (ptrMethods s t).map (fun m => (mkey m, none)) := by
+    rw [declared_eq s t hk2, List.foldl_append, List.foldl_map, List.foldl_map]
+    have h1 := foldl_addOne false (s.get t).methods [] (by simpa using (List.nodup_append.mp hkeys).1)
+    simp only [List.nil_append, Bool.false_eq_true, if_false] at h1
+    rw [h1]
+    have h2 := foldl_addOne true (ptrMethods s t) ((s.get t).methods.map (fun m => (mkey m, some m))) (by
+      simpa [List.map_map, Function.comp_def] using hkeys)
+    simpa using h2
+  have hv : sVisit s (ptrOfM s) { seen := [], mset := [], fset := [], next := [] } ⟨t, false, false⟩ =
+      { seen := [t], mset := (s.get t).methods.map (fun m => (mkey m, some m)) ++ (ptrMethods s t).map (fun m => (mkey m, none)),
+        fset := [], next := [] } := by
+    simp [sVisit, hn, hk1, hk2, hm]
+  rw [hv]
+  simp only [consolidate, sLoop_nil, mergeLevel, List.foldl_nil]
+  have := mergeLevel_nil ((s.get t).methods.map (fun m => (mkey m, some m)) ++ (ptrMethods s t).map (fun m => (mkey m, none))) []
+    (by simpa [List.map_map, Function.comp_def] using hkeys)
+  rw [this]
+  simpa using filterMap_vals (s.get t).methods (ptrMethods s t)
+
+/-- `methodset_correct` at depth 0, for ALL heaps: a defined non-struct type (`type N int`, named slices, maps, funcs, …)
+    with well-formed declared methods has exactly its value-receiver methods in the run-time method set, as in Go;
+    the pointer-receiver methods are excluded by both. -/
+theorem methodset_correct_partial_flat (s : St) (t : Nat) (hf : FlatNamed s t) (hc : DeclClean s t) :
+    methodSet s t = specMethodSet s (ptrOfM s) t := by
+  rw [methodSet_flat s t hf hc, specMethodSet_flat s t hf hc]
+
+/-- `type N int; func (N) M() int; func (*N) P() int` satisfies the hypotheses -/
+def wFlat : St :=
+  let s := decl base0 "main.N" 2            -- N = 22
+  let p := canon s (.ptr 22)                -- *N = 23
+  setMethods (setMethods p.1 22 [mM "M"]) 23 [mM "P"]
+
+example : FlatNamed wFlat 22 ∧ DeclClean wFlat 22 ∧ methodSet wFlat 22 = [mM "M"] := by
+  unfold FlatNamed DeclClean; decide
+
 /-! ## 4. `assert_correct`: every SEQUENCE of assertions answers as Go does -/
 
 /-- full-strength statement (NOT claimed: false today by memo poisoning, and wherever method sets are wrong) -/
